@@ -35,6 +35,24 @@ SUM = {
  "C17a": "morx ligature: duplicate-push guard reads the stale slot above the stack top",
  "C17b": "morx non-contextual range walk `>=` instead of `>`",
  "C18a": "tags_from_language: 3-digit region subtags treated as extended-language subtags (`es-419` loses its language) (C18b: same change)",
+ "C01c": "apply_string's empty-buffer test moved to apply_layout_table: a buffer emptied by deletions reaches a reverse-chaining lookup (`len - 1` underflow)",
+ "C02c": "Hangul tone-mark reordering: merge_out_clusters one glyph short (non-monotone at level 1)",
+ "C03c": "apply_stch: unsafe_to_break over the tiles only (`start..end`) instead of the word that decides the tiling (`context..end`)",
+ "C04c": "delete_glyphs_inplace backward merge takes the mask of the kept glyph instead of the deleted one",
+ "C05c": "ensure(): length limit only checked when the Vec has to grow (capacity survives clear())",
+ "C06c": "apply_backward lost its per-glyph feature-mask test (reverse-chaining lookups ignore feature ranges)",
+ "C07c": "kerx driver: early skip of simple subtables removed, the arm-level `continue` leaves the buffer reversed",
+ "C08c": "handle_variation_selector_cluster: further variation selectors skipped without copying (dropped)",
+ "C09c": "decompose_multi_char_cluster scans for a variation selector to the end of the buffer instead of the cluster",
+ "C10c": "AlternateSet::apply bypasses ctx.replace_glyph: the new glyph is missing from the buffer digest",
+ "C11c": "USE has_arabic_joining: PSALTER_PAHLAVI replaced by INSCRIPTIONAL_PAHLAVI",
+ "C12c": "collect_lookup_stages merges the masks of a shared lookup with `&=` (ljmo/vjmo/tjmo sharing one lookup) — same change as C14c",
+ "C13c": "space fallback: `scratch_flags = HAS_SPACE_FALLBACK` instead of `|=` (default-ignorable gate bit lost)",
+ "C14c": "collect_lookup_stages merges the masks of a lookup shared by two features with `&=` instead of `|=`",
+ "C15c": "AAT trak: tracking applied per cluster instead of per grapheme (level-dependent advances)",
+ "C16c": "ValueRecord y_advance device delta applied in horizontal runs too",
+ "C17c": "remove_deleted_glyphs for morx + GPOS fonts runs before morx: 0xFFFF records stay in the output",
+ "C18c": "required feature scheduled at the GSUB stage of the same tag also for GPOS (`info.stage[0]`): GPOS required feature dropped",
 }
 rows = []
 for f in sorted(glob.glob("/verif/seeded/*/meta.json")):
